@@ -1,10 +1,13 @@
 /-
 Lemmas/RenameLayout.lean — C18-R2 (renaming), part 4: the stages after `translate` — the PCR size loop, the ORG check,
 address assignment, `fix_addresses`, the evaluation of EQU expressions and the final symbol table — commute with the
-renaming of statements `rnStmt` (they read sizes, statement indices and addresses, never a name).
+renaming of statements `rnStmt` (they read sizes, statement indices and addresses, never a name). Batch 8: the evaluation
+of the FCB / FDB lists (`evalLists`, inside `fixAllL`) reads element TEXTS; it commutes for lists of literals
+(`evalLists_rn`, `fixAllL_rn`), hence the hypothesis `ListsOK` of `back_rn`.
 -/
 import CoCoVerif.Lemmas.RenameTranslate
 import CoCoVerif.Lemmas.LayoutSym
+import CoCoVerif.Lemmas.EvalLists
 
 namespace CoCo.Asm.Rename
 open CoCo
@@ -417,6 +420,119 @@ theorem fixAll_rn (ss : List Stmt) : ∀ (l : List Stmt) (i : Nat),
     | ok s' => cases fixAll ss (i + 1) rest <;> rfl
     | _ => rfl
 
+/-! ### the FCB / FDB lists (batch 8: `evalLists` after `fixAll`)
+
+`evalLists` reads, for a statement whose operand field is a byte / word list, the element TEXTS of the operand text that
+are symbols or expressions (`pendingAt`) and evaluates them against the label table. The renaming `rnStmt` does not
+rename inside operand texts, so the pass commutes with it for the lists that have no such element (`litElems`) and
+whose text `ρ.txt` leaves alone. -/
+
+/-- the value is a byte / word list -/
+def isList (v : Value) : Bool := v.isMultiByte || v.isMultiWord
+
+/-- no element of the list operand text `txt` is a symbol or an expression that `evalLists` would evaluate (neither at
+the width of an FCB nor at the width of an FDB): the list is a list of literals -/
+def litElems (txt : Str) : Bool := (listElems txt).all (fun x => !pendingAt 2 x && !pendingAt 4 x)
+
+theorem litElems_at {txt : Str} (h : litElems txt = true) {w : Nat} (hw : w = 2 ∨ w = 4) :
+    ∀ x ∈ listElems txt, pendingAt w x = false := by
+  intro x hx
+  have := List.all_eq_true.mp h x hx
+  simp only [Bool.and_eq_true, Bool.not_eq_true'] at this
+  rcases hw with rfl | rfl
+  · exact this.1
+  · exact this.2
+
+/-- literal elements keep their digits whatever the program and the table are -/
+theorem evalElems_lit (ss ss' : List Stmt) (t t' : SymTab) (w : Nat) : ∀ (xs hs : List Str),
+    (∀ x ∈ xs, pendingAt w x = false) → evalElems ss' t' w xs hs = evalElems ss t w xs hs := by
+  intro xs
+  induction xs with
+  | nil => intro hs _; rw [evalElems_nil_left, evalElems_nil_left]
+  | cons x xs ih =>
+    intro hs hp
+    cases hs with
+    | nil => rw [evalElems_nil_right, evalElems_nil_right]
+    | cons h hs =>
+      rw [evalElems_cons, evalElems_cons, ih hs (fun y hy => hp y (by simp [hy]))]
+      have e : ∀ (a : List Stmt) (b : SymTab), evalElem1 a b w x h = .ok h := by
+        intro a b; unfold evalElem1; rw [hp x (by simp)]; rfl
+      rw [e, e]
+
+theorem evalList1_rn (t : SymTab) (ss : List Stmt) (s : Stmt)
+    (h : isList s.pkg.additional = true → litElems s.operand.text = true ∧ ρ.txt s.operand.text = s.operand.text) :
+    evalList1 (rnTab ρ t) (ss.map (rnStmt ρ)) (rnStmt ρ s) = (evalList1 t ss s).map (rnStmt ρ) := by
+  unfold evalList1
+  have e : (rnStmt ρ s).pkg.additional = rnValue ρ s.pkg.additional := rfl
+  have e2 : (rnStmt ρ s).operand.text = ρ.txt s.operand.text := rfl
+  rw [e, e2]
+  cases ha : s.pkg.additional with
+  | multiByte hs =>
+    obtain ⟨h1, h2⟩ := h (by rw [ha]; rfl)
+    simp only [rnValue]
+    rw [h2, evalElems_lit ss _ t _ 2 _ hs (litElems_at h1 (.inl rfl))]
+    cases evalElems ss t 2 (listElems s.operand.text) hs <;> rfl
+  | multiWord hs =>
+    obtain ⟨h1, h2⟩ := h (by rw [ha]; rfl)
+    simp only [rnValue]
+    rw [h2, evalElems_lit ss _ t _ 4 _ hs (litElems_at h1 (.inr rfl))]
+    cases evalElems ss t 4 (listElems s.operand.text) hs <;> rfl
+  | _ => first | rfl | (simp only [rnValue]; rfl)
+
+theorem evalLists_rn (t : SymTab) (ss : List Stmt) : ∀ (l : List Stmt),
+    (∀ s ∈ l, isList s.pkg.additional = true →
+      litElems s.operand.text = true ∧ ρ.txt s.operand.text = s.operand.text) →
+    evalLists (rnTab ρ t) (ss.map (rnStmt ρ)) (l.map (rnStmt ρ)) = (evalLists t ss l).map (List.map (rnStmt ρ)) := by
+  intro l
+  induction l with
+  | nil => intro _; rfl
+  | cons s rest ih =>
+    intro hl
+    rw [List.map_cons, evalLists_cons, evalLists_cons, evalList1_rn t ss s (hl s (by simp)),
+      ih (fun x hx => hl x (by simp [hx]))]
+    cases evalList1 t ss s with
+    | ok s' => cases evalLists t ss rest <;> rfl
+    | _ => rfl
+
+theorem fixAllL_rn (t : SymTab) (ss4 : List Stmt)
+    (h : ∀ x, fixAll ss4 0 ss4 = .ok x → ∀ s ∈ x, isList s.pkg.additional = true →
+      litElems s.operand.text = true ∧ ρ.txt s.operand.text = s.operand.text) :
+    fixAllL (rnTab ρ t) (ss4.map (rnStmt ρ)) = (fixAllL t ss4).map (List.map (rnStmt ρ)) := by
+  unfold fixAllL
+  rw [fixAll_rn]
+  cases hf : fixAll ss4 0 ss4 with
+  | ok x =>
+    simp only [Outcome.map_ok]
+    exact evalLists_rn t x x (h x hf)
+  | _ => rfl
+
+/-- the statements as they reach the evaluation of the FCB / FDB lists: the stages of `back` up to and including
+`fixAll` (the ORG check left out) -/
+def preLists (ss : List Stmt) : Option (List Stmt) :=
+  match buildSymTab ss 0 [] with
+  | none => none
+  | some t =>
+    match resolveAll t ss with
+    | none => none
+    | some ss1 =>
+      match translateAll ss1 with
+      | none => none
+      | some ss2 =>
+        match pcrLoop (ss2.length + 1) ss2 with
+        | .ok ss3 =>
+          (match assignAddrs ss3 0 with
+           | .ok ss4 => (match fixAll ss4 0 ss4 with | .ok x => some x | _ => none)
+           | _ => none)
+        | _ => none
+
+/-- the side condition of C18-R2 about FCB / FDB lists (batch 8): a statement that reaches the list pass with a byte /
+word list as its operand field has literal elements only (no symbol, no expression: `litElems`), and the renaming of
+operand texts leaves its text alone. (`renameStmt` renames symbols in operand VALUES; the elements of a list are
+evaluated from the operand TEXT.) -/
+def ListsOK (ρ : Ren) (ss : List Stmt) : Prop :=
+  ∀ x, preLists ss = some x → ∀ s ∈ x, isList s.pkg.additional = true →
+    litElems s.operand.text = true ∧ ρ.txt s.operand.text = s.operand.text
+
 
 /-! ### the symbol table after layout -/
 
@@ -529,7 +645,7 @@ theorem labels_kept {t : SymTab} {n : Nat} {ss ss1 ss2 ss3 : List Stmt} (h1 : re
   rw [e3, e2, e1]
 
 theorem back_rn (ss : List Stmt) (N : List Str) (hinj : InjOn ρ.sym N)
-    (hN : ∀ s ∈ ss, ∀ x ∈ stmtNames s, x ∈ N) (hok : ∀ s ∈ ss, StmtOK ρ s) :
+    (hN : ∀ s ∈ ss, ∀ x ∈ stmtNames s, x ∈ N) (hok : ∀ s ∈ ss, StmtOK ρ s) (hlists : ListsOK ρ ss) :
     back (ss.map (renameStmt ρ)) = (back ss).map (rnAssembly ρ) := by
   unfold back
   have hb := buildSymTab_rn (R := ρ) N hinj ss 0 []
@@ -566,8 +682,8 @@ theorem back_rn (ss : List Stmt) (N : List Str) (hinj : InjOn ρ.sym N)
             cases ha : assignAddrs ss3 0 with
             | ok ss4 =>
               simp only [Outcome.map_ok]
-              rw [fixAll_rn]
-              cases hf : fixAll ss4 0 ss4 with
+              rw [fixAllL_rn t ss4 (fun x hx => hlists x (by unfold preLists; simp only [hbt, hr, htr, hp, ha, hx]))]
+              cases hf : fixAllL t ss4 with
               | ok ss5 =>
                 simp only [Outcome.map_ok]
                 rw [evalSyms_rn N hinj t ht ss5 t (fun kv hkv => (ht kv hkv).2)]
